@@ -7,7 +7,7 @@ import z3, re
 from client import *
 
 VD = z3.Function('VD', ID, ID, ID, z3.BoolSort())        # parent document id, role name id, child document id
-UNWIND = 4
+UNWIND = 6
 
 class Tree:
     def __init__(self, shape, pfx='d'):
@@ -88,7 +88,25 @@ def m_box_pin(I, st, fr, callee, args, dty, dest, ret_bb):
 def m_opt_as_mut(I, st, fr, callee, args, dty, dest, ret_bb):
     return args[0]
 
+def strval(I, st, v):
+    v = deref(I, st, v)
+    while isinstance(v, Ref): v = I.deref_load(st, v)
+    return v.d.get('s') if isinstance(v, Obj) else None
+def m_strslice_contains(I, st, fr, callee, args, dty, dest, ret_bb):
+    vec = deref(I, st, args[0]); want = strval(I, st, args[1])
+    have = [strval(I, st, Ref(c)) for c in vec.d['elems']]
+    if want is None or any(h is None for h in have): raise Stuck('contains over non-concrete role names')
+    return z3.BoolVal(want in have)
+def m_strslice_to_vec(I, st, fr, callee, args, dty, dest, ret_bb):
+    vec = deref(I, st, args[0]); return Obj('vec', elems=[st.alloc(clone(st.heap[c])) for c in vec.d['elems']])
+def m_strvec_push(I, st, fr, callee, args, dty, dest, ret_bb):
+    vec = deref(I, st, args[0]); vec.d['elems'] = vec.d['elems'] + [st.alloc(mat(I, st, args[1]))]; return unit()
+
 DELEG_MODELS = [
+    (R(r'^core::slice::<impl \[std::string::String\]>::contains$'), m_strslice_contains),
+    (R(r'^(core|std)::slice::<impl \[std::string::String\]>::to_vec$'), m_strslice_to_vec),
+    (R(r'^Vec::<std::string::String>::push$'), m_strvec_push),
+    (R(r'^<Vec<std::string::String> as Deref>::deref$'), m_identity),
     (R(r'^<&(mut )?Vec<DelegatedRole> as IntoIterator>::into_iter$'), m_vec_into_iter),
     (R(r'^<std::slice::Iter(Mut)?<.*DelegatedRole> as Iterator>::next$'), m_iter_next_g),
     (R(r'^HashMap::<std::string::String, std::option::Option<schema::Signed<Targets>>>::new$'), m_map_new),
@@ -122,14 +140,21 @@ def summarize_load_delegations(I, T, P, io_faults=False):
         n = name_of_url(url)
         depth = sum(1 for e in st_.events if e[0] == 'parse' and name_of_url(e[1]) == n)   # how often this role was parsed so far (recursion depth for self-delegation)
         nfetch = sum(1 for e in st_.events if e[0] == 'fetch')
-        d = role_doc(st_, T, n, nfetch if T.node[n]['sub'] == 'self' or _cyclic(T, n) else T.node[n]['depth'])
+        d = role_doc(st_, T, n, nfetch)     # unwinding bound on the number of role files fetched so far
         if d.fields.get((None, 'unwound')): st_.events.append(('unwind_exceeded', n))
         return (T.parses[n], d)
     st.env['transport'] = transport; st.env['served'] = served
     saved = list(I.models); I.models[:0] = DELEG_MODELS
     try:
-        done = run_async(I, st, 'load_delegations', dict(transport=Obj('dyn_transport'), snapshot=Ref(sn), consistent_snapshot=P.cons, metadata_base_url=Ref(base),
-                                                          max_targets_size=P.maxsz, delegation=Ref(topcell), datastore=Ref(ds)))
+        kw = dict(transport=Obj('dyn_transport'), snapshot=Ref(sn), consistent_snapshot=P.cons, metadata_base_url=Ref(base),
+                  max_targets_size=P.maxsz, delegation=Ref(topcell), datastore=Ref(ds))
+        # a list of ancestor role names, if the traversal carries one (cycle protection)
+        fn = find_fn(I, 'load_delegations')
+        for extra in fn.debug:
+            if extra not in kw and re.match(r'^_\d+$', fn.debug[extra].strip()):
+                if 'String]' in fn.locals.get(fn.debug[extra].strip(), '') or 'Vec<std::string::String>' in fn.locals.get(fn.debug[extra].strip(), ''):
+                    kw[extra] = Ref(st.alloc(Obj('vec', elems=[])))
+        done = run_async(I, st, 'load_delegations', kw)
     finally:
         I.models[:] = saved
     paths = [Path(s) for s in done]
